@@ -827,11 +827,53 @@ fn run_loop_text(text: &str, optimised: bool, fuel: u64) -> String {
   format!("out {printed} ret {r}")
 }
 
-/// `(b X OP A B | p A)*` -> statements (operands `v<k>` / `i<n>`)
+/// `lvn` protocol printer (same token language as the input)
+fn show_lvn_stmts(heap: &Heap, ss: &[Statement]) -> String {
+  let mut out: Vec<String> = Vec::new();
+  for s in ss {
+    match s {
+      Statement::Binary(b) => out.push(format!(
+        "b {} {} {} {}",
+        b.name.as_str(heap),
+        op_name(b.operator),
+        show_expr(heap, &b.e1),
+        show_expr(heap, &b.e2)
+      )),
+      Statement::Call { arguments, .. } => out.push(format!("p {}", show_expr(heap, &arguments[0]))),
+      Statement::Break(e) => out.push(format!("k {}", show_expr(heap, e))),
+      Statement::SingleIf { condition, invert_condition, statements } => {
+        let inner = show_lvn_stmts(heap, statements);
+        out.push(format!(
+          "[ {} {} {}]",
+          show_expr(heap, condition),
+          *invert_condition as u8,
+          if inner.is_empty() { String::new() } else { format!("{inner} ") }
+        ))
+      }
+      _ => out.push("?".to_string()),
+    }
+  }
+  out.join(" ")
+}
+
+/// `(b X OP A B | p A | k A | [ C INV … ])*` -> statements (operands `v<k>` / `i<n>`)
 fn straight_line(heap: &mut Heap, t: &[&str]) -> Option<Vec<Statement>> {
   let mut body = Vec::new();
   let mut i = 0;
   while i < t.len() {
+    if t[i] == "k" && i + 1 < t.len() {
+      body.push(Statement::Break(expr_of(heap, t[i + 1])?));
+      i += 2;
+      continue;
+    }
+    if t[i] == "[" && i + 2 < t.len() {
+      let close = (i..t.len()).find(|j| t[*j] == "]")?;
+      let condition = expr_of(heap, t[i + 1])?;
+      let statements = straight_line(heap, &t[i + 3..close])?;
+      body.push(Statement::SingleIf { condition, invert_condition: t[i + 2] == "1", statements });
+      i = close + 1;
+      continue;
+    }
     if t[i] == "b" && i + 4 < t.len() {
       let n = expr_of(heap, t[i + 1])?;
       let o = op_of(t[i + 2])?;
@@ -960,6 +1002,74 @@ fn kernel_line(t: &[&str]) -> String {
       let kept: Vec<String> =
         f.body.iter().filter_map(|s| s.as_binary().map(|b| b.name.as_str(&heap).to_string())).collect();
       format!("kept {}", if kept.is_empty() { "-".to_string() } else { kept.join(",") })
+    }
+    "lvn" => {
+      // the block is the body of a `while` (so that `Break` is legal); real local_value_numbering
+      let mut heap = Heap::new();
+      let body = match straight_line(&mut heap, &t[1..]) {
+        Some(b) => b,
+        None => return "bad-line".to_string(),
+      };
+      let r = name(&mut heap, "r");
+      let mut f = Function {
+        name: FunctionName { type_name: TypeNameId::EMPTY, fn_name: name(&mut heap, "f0") },
+        parameters: vec![name(&mut heap, "v00"), name(&mut heap, "v01")],
+        type_: Type::new_fn_unwrapped(vec![INT_32_TYPE; 2], INT_32_TYPE),
+        body: vec![Statement::While {
+          loop_variables: Vec::new(),
+          statements: body,
+          break_collector: Some(VariableName { name: r, type_: INT_32_TYPE }),
+        }],
+        return_value: Expression::var_name(r, INT_32_TYPE),
+      };
+      let counter = heap.create_temp_counter();
+      verif_hooks::run_pass("lvn", &mut f, &counter, &config(31));
+      match &f.body[0] {
+        Statement::While { statements, .. } => {
+          let s = show_lvn_stmts(&heap, statements);
+          if s.is_empty() { "-".to_string() } else { s }
+        }
+        _ => "unexpected-shape".to_string(),
+      }
+    }
+    "cse" => {
+      // `cse <block1> / <block2>`: real common_subexpression_elimination on `if v00 {block1} {block2}`
+      let mut heap = Heap::new();
+      let slash = match t.iter().position(|x| *x == "/") {
+        Some(i) => i,
+        None => return "bad-line".to_string(),
+      };
+      let (s1, s2) = match (straight_line(&mut heap, &t[1..slash]), straight_line(&mut heap, &t[slash + 1..])) {
+        (Some(a), Some(b)) => (a, b),
+        _ => return "bad-line".to_string(),
+      };
+      let v0 = name(&mut heap, "v00");
+      let mut f = Function {
+        name: FunctionName { type_name: TypeNameId::EMPTY, fn_name: name(&mut heap, "f0") },
+        parameters: vec![v0, name(&mut heap, "v01")],
+        type_: Type::new_fn_unwrapped(vec![INT_32_TYPE; 2], INT_32_TYPE),
+        body: vec![Statement::IfElse {
+          condition: Expression::var_name(v0, INT_32_TYPE),
+          s1,
+          s2,
+          final_assignments: Vec::new(),
+        }],
+        return_value: Expression::i32(0),
+      };
+      let counter = heap.create_temp_counter();
+      verif_hooks::run_pass("cse", &mut f, &counter, &config(31));
+      let mut hoisted: Vec<String> = f
+        .body
+        .iter()
+        .take_while(|s| s.as_if_else().is_none())
+        .filter_map(|s| {
+          s.as_binary()
+            .map(|b| format!("{}:{}:{}", op_name(b.operator), show_expr(&heap, &b.e1), show_expr(&heap, &b.e2)))
+        })
+        .collect();
+      hoisted.sort();
+      hoisted.dedup();
+      format!("hoisted {}", if hoisted.is_empty() { "-".to_string() } else { hoisted.join(",") })
     }
     "licm" => {
       // the block is the body of `while (v00 = 0) { …; v99 = v00 + 1 }` (v01 is a parameter)
